@@ -161,7 +161,7 @@ func (in *Interp) mapIterNext(it *mapIter, kt, vt types.Type) Tuple {
 	for it.left > 0 {
 		// candidate positions
 		var pick int
-		if in.symMapOrder && it.left > 1 {
+		if in.symMapOrder && it.left > 1 && len(it.keys) <= 4 {
 			c := in.choose(it.left)
 			n := 0
 			pick = -1
